@@ -10,7 +10,12 @@ One row per callable that `dir(bct)` exposes and that is defined in `bct.*` (153
                 (kind, num)  kind in nodevec | pairmat | pairstack | scalar | bag | bagcols |
                              partition | nodesets | nodesetseq | noderows | opaque
                              num  in int | real   (int = integer by definition on integer input)
-  variants    {label: kwargs}  the option settings that are exercised ("" = defaults)
+  variants    {label: kwargs}  the option settings that are exercised ("" = defaults).  Keys that
+              start with "_" are not passed to the function: _out (output kinds of this variant),
+              _w (weight kind of the network argument), _d (und | dir: which networks this
+              variant is defined for); "args": {index: value} overrides a positional argument;
+              the string values "CI" / "VEC" / "DIST" / "ETA" are placeholders for a partition,
+              a per-node vector, a distance matrix, a 1x1 parameter array
   det         deterministic function of its arguments (no random draws)
   seeded      accepts seed=            (C05 iterates over these rows)
   inplace     has the documented copy=False option (thresholding / weight-conversion utilities)
